@@ -244,6 +244,15 @@ func (r *Report) Finish(verifDir string, known *KnownFile) int {
 		if o.Status == Undecided {
 			nUnd++
 			fmt.Printf("UNDECIDED %s %s @ %s: %s\n", o.Rule, o.Construct, o.Pos, o.Detail)
+			// an undecided instance fails the check: it is reported through the same
+			// interface line as a violation (the check never passes on something it did not decide)
+			name := fmt.Sprintf("%s-undecided-%d.json", r.Property, nUnd)
+			path := filepath.Join(vioDir, name)
+			rec := map[string]interface{}{"property": r.Property, "rule": o.Rule, "construct": o.Construct, "pos": o.Pos, "status": "undecided",
+				"detail": o.Detail, "reproduce": fmt.Sprintf("cd /verif && ./scripts/check.sh %s %s", r.Property, r.Tier)}
+			b, _ := json.MarshalIndent(rec, "", " ")
+			_ = os.WriteFile(path, b, 0o644)
+			fmt.Printf("VIOLATION property=%s replay=%s\n", r.Property, path)
 		}
 	}
 	r.writeEvidence(verifDir, matched, nViol, nUnd)
